@@ -294,6 +294,7 @@ func scenarioTwin() int {
 	}
 	// the readiness barriers went through UA 0 for every service alike
 	pairs, relayedPairs := 0, 0
+	again := 0
 	for i := 0; i < n && run.Violations() <= 8; i++ {
 		if h := w.Health(); h != "" {
 			run.Violation("proxy died during the run (belongs to C08; the run cannot continue)", map[string]any{"health": h})
@@ -411,6 +412,37 @@ func scenarioTwin() int {
 					run.Eval(c.kind + "|second-response|" + kinds)
 				}
 			}
+			if mA.IsRequest() && c.respond == nil && c.kind == "backend" && g.R.Intn(3) == 0 {
+				// the request once more (a retransmission): the canonical side byte for byte, the twin's
+				// copy respelled and laid out anew - the two sides still agree on where it goes and on
+				// what is relayed
+				mB2, kinds2 := respell(g, mA)
+				rawB2 := headOnly(mB2.Bytes(), func(h []byte) []byte { return bytes.ReplaceAll(twinRewrite(w, h, a), []byte(idA), []byte(idB)) })
+				oa2 := send(pathA, rawA, idA)
+				ob2 := send(pathB, rawB2, idB)
+				if len(oa2) != 2 || len(ob2) != 2 {
+					w.Net.WaitCase(idA, func(o []*wire.Obs) bool { return len(o) >= 2 }, w.BarrierWait)
+					w.Net.WaitCase(idB, func(o []*wire.Obs) bool { return len(o) >= 2 }, w.BarrierWait)
+					oa2, ob2 = w.Net.ForCase(idA), w.Net.ForCase(idB)
+				}
+				rawB = rawB2
+				kinds = kinds + " / again: " + kinds2
+				if len(oa2) != len(ob2) {
+					oa, ob = oa2, ob2
+					run.Violation("spelling or layout changes whether a request sent again is relayed", detail(fmt.Sprintf("after the second copy: canonical spelling %d outputs in all, respelled twin %d", len(oa2), len(ob2))))
+					continue
+				}
+				if len(oa2) == 2 {
+					qa, qb := twinProject(w, oa2[1], a, idA, idB), twinProject(w, ob2[1], a+twinShift, idB, idA)
+					if why := twinDiff(qa, qb); why != "" {
+						oa, ob = oa2[1:], ob2[1:]
+						run.Violation("spelling or layout changes how a request sent again is relayed", detail(why))
+						continue
+					}
+					again++
+					run.Eval(c.kind + "|sent-again|" + kinds2)
+				}
+			}
 			if run.WantSample() && i > 20 && len(rawA) < 1200 && strings.Contains(kinds, "compact") {
 				run.Sample(detail("pair agrees"))
 			}
@@ -420,6 +452,7 @@ func scenarioTwin() int {
 		}
 	}
 	run.Observe("pairs_sent", pairs)
+	run.Observe("requests_sent_again_with_the_twin_copy_laid_out_anew", again)
 	run.Observe("pairs_relayed_and_equal", relayedPairs)
 	run.Observe("barrier_timeouts", w.BarrierMisses)
 	if relayedPairs < n/3 {
